@@ -119,6 +119,9 @@ def _vals(col):
 def _times(case):
     import numpy as np
 
+    if any(s is None for s in case["time"]):      # a record without a time stamp: NaT
+        return np.array([np.datetime64("NaT") if s is None else np.datetime64(s * NS, "ns") for s in case["time"]],
+                        dtype="datetime64[ns]")
     return np.array([s * NS for s in case["time"]], dtype="int64").astype("datetime64[ns]")
 
 
@@ -147,13 +150,14 @@ def _bound(s, form="datetime"):
 
 def build_config(case):
     ctxs = []
+    body = None if case.get("null_bodies") else {"p": 1}     # an entry that cannot run may be written without a body
     for c in case["cfg"]:
         streams = {}
         for cl in c["entries"]:
             if cl["kind"] == "unknown_module":
-                streams.setdefault(cl["stream"], {}).setdefault("nomodule", {})["some_test"] = {"p": 1}
+                streams.setdefault(cl["stream"], {}).setdefault("nomodule", {})["some_test"] = body
             elif cl["kind"] == "unknown_test":
-                streams.setdefault(cl["stream"], {}).setdefault("qartod", {})["no_such_test"] = {"p": 1}
+                streams.setdefault(cl["stream"], {}).setdefault("qartod", {})["no_such_test"] = body
             else:
                 kw = {"p": cl["p"]}
                 if cl["fault"]:
@@ -170,6 +174,12 @@ def build_config(case):
                 w = {k: v for k, v in w.items() if v is not None}            # an absent bound may simply be left out
             ctx["window"] = w
         ctxs.append(ctx)
+    # one context may also be written on its own, and one without window as the bare stream mapping
+    if len(ctxs) == 1 and case.get("layout") == "single":
+        return ctxs[0]
+    if len(ctxs) == 1 and case.get("layout") == "bare" and "window" not in ctxs[0] \
+            and any(isinstance(kw, dict) for mods in ctxs[0]["streams"].values() for ts in mods.values() for kw in ts.values()):
+        return ctxs[0]["streams"]         # (without any parameter mapping the bare form is misread: F12a)
     return {"contexts": ctxs}
 
 
@@ -463,6 +473,10 @@ def gen_stream(tier, rng, frontends=("pandas", "numpy", "netcdf", "xarray"), fau
             if fe != "numpy" and rng.random() < 0.3:
                 # the user's own column / variable names for the axes, told to the constructor
                 cases[-1]["axis_names"] = {"time": "obs_t", "z": "depth_m", "lat": "y_deg", "lon": "x_deg"}
+            if len(cfg) == 1 and rng.random() < 0.5:
+                cases[-1]["layout"] = rng.choice(["single", "bare"])
+            if faults and rng.random() < 0.4:
+                cases[-1]["null_bodies"] = True
             if wforms and not faults and has_time and rng.random() < 0.35 \
                     and any(c["start"] is not None or c["end"] is not None for c in cfg):
                 cases[-1]["wform"] = rng.choice(WINDOW_FORMS[1:])       # the same instants, spelled differently
@@ -664,6 +678,21 @@ def gen_orphan_cases(tier, rng):
     return out
 
 
+def gen_nat_cases(tier, rng):
+    """tables in which some records have no time stamp (NaT), on the front ends that take plain arrays / tables
+    (an xarray time coordinate must be sorted, hence complete)"""
+    import copy
+    out = []
+    for c in gen_stream("quick", rng, frontends=("pandas", "numpy", "netcdf"), wforms=False):
+        if c["time"] is None or c["n"] < 2:
+            continue
+        d = copy.deepcopy(c)
+        for i in rng.sample(range(d["n"]), rng.randint(1, 2)):
+            d["time"][i] = None
+        out.append(d)
+    return out if tier != "quick" else rng.sample(out, min(len(out), 150))
+
+
 def collected_rows_failures(case):
     """C06 end to end on the implementation: run a front end, collect both forms, and compare, row by row,
     with the flags the probe gives when called directly on each context's window rows and put back on those
@@ -692,7 +721,9 @@ def collected_rows_failures(case):
         if case["time"] is None:
             m = [True] * n
         else:
-            m = [(c["start"] is None or c["start"] <= t) and (c["end"] is None or t < c["end"]) for t in case["time"]]
+            # (a record without a time stamp satisfies no bound: it belongs only to contexts without window)
+            m = [(c["start"] is None and c["end"] is None) if t is None else
+                 (c["start"] is None or c["start"] <= t) and (c["end"] is None or t < c["end"]) for t in case["time"]]
         sel = [i for i, b in enumerate(m) if b]
         for e in c["entries"]:
             if e["kind"] != "call" or e["stream"] not in names:
